@@ -391,6 +391,151 @@ fn run_l<L: Language + 'static>(c: &PlantCase, obs: &mut Obs) -> Result<(), Stri
     Ok(())
 }
 
+
+// ---------------------------------------------------------------------------------------------
+// non-linear / permuted left sides over a symmetric multi-slot class
+// ---------------------------------------------------------------------------------------------
+
+/// A k-slot leaf L whose class is made symmetric under the group generated by `gens` (asserted as unions with permuted
+/// copies), optionally merged with the (bigger) class of another k-slot term, optionally with a generator asserted only
+/// after that merge.  The inserted term uses L twice, the second time with its arguments permuted by `pi`, an element of
+/// the generated group: so the inserted term is an instance of the non-linear left side - through the symmetry only.
+#[derive(Clone, Debug, PartialEq, Eq, Hash, Serialize, Deserialize)]
+pub struct SymPlant {
+    pub k: u8,
+    pub gens: Vec<Vec<u8>>,
+    pub pi: Vec<u8>,
+    /// 0: (p ?a ?a) => (w ?a); 1: (t3 ?a ?b ?a) => (p ?a ?b); 2: (p (w ?a) ?a) => (w (w ?a)); 3: (p (L s..) (L pi(s)..)) => (w (L s..)) on (p L L)
+    pub kind: u8,
+    /// 0: no merge; 1: L's class merged into a bigger class; 2: a bigger L class absorbs another one
+    pub merge: u8,
+    /// the last generator is asserted after the merge
+    pub late_gen: bool,
+    /// the term is inserted before the symmetries are asserted (it then has to be re-canonicalised)
+    pub insert_first: bool,
+}
+
+fn sym_leaf(k: usize, p: &[u8]) -> Tm {
+    super::c10::leaf_term(k, &p.to_vec())
+}
+
+fn run_sym(c: &SymPlant, obs: &mut Obs) -> Result<(), String> {
+    let nm = Naming::Alpha;
+    let k = c.k as usize;
+    let id: Vec<u8> = (0..k as u8).collect();
+    let kk = |t: Tm| Arg::K(vec![], t);
+    let l_id = sym_leaf(k, &id);
+    let l_pi = sym_leaf(k, &c.pi);
+    // pattern slots: $k $l $m ... (names 10..)
+    let pslots: Vec<u8> = (10..10 + k as u8).collect();
+    let pslots_pi: Vec<u8> = c.pi.iter().map(|x| 10 + *x).collect();
+    let (lhs, rhs, inserted, inst_r): (Tm, Tm, Tm, Tm) = match c.kind % 4 {
+        0 => (Tm::node("p", vec![kk(pvar("a")), kk(pvar("a"))]), Tm::node("w", vec![kk(pvar("a"))]), Tm::node("p", vec![kk(l_id.clone()), kk(l_pi.clone())]), Tm::node("w", vec![kk(l_id.clone())])),
+        1 => (
+            Tm::node("t3", vec![kk(pvar("a")), kk(pvar("b")), kk(pvar("a"))]),
+            Tm::node("p", vec![kk(pvar("a")), kk(pvar("b"))]),
+            Tm::node("t3", vec![kk(l_id.clone()), kk(Tm::node("c1", vec![])), kk(l_pi.clone())]),
+            Tm::node("p", vec![kk(l_id.clone()), kk(Tm::node("c1", vec![]))]),
+        ),
+        2 => (
+            Tm::node("p", vec![kk(Tm::node("w", vec![kk(pvar("a"))])), kk(pvar("a"))]),
+            Tm::node("w", vec![kk(Tm::node("w", vec![kk(pvar("a"))]))]),
+            Tm::node("p", vec![kk(Tm::node("w", vec![kk(l_pi.clone())])), kk(l_id.clone())]),
+            Tm::node("w", vec![kk(Tm::node("w", vec![kk(l_id.clone())]))]),
+        ),
+        _ => (
+            Tm::node("p", vec![kk(sym_leaf(k, &pslots)), kk(sym_leaf(k, &pslots_pi))]),
+            Tm::node("w", vec![kk(sym_leaf(k, &pslots))]),
+            Tm::node("p", vec![kk(l_id.clone()), kk(l_id.clone())]),
+            Tm::node("w", vec![kk(l_id.clone())]),
+        ),
+    };
+    let mut eg: EGraph<Core> = EGraph::default();
+    let add = |eg: &mut EGraph<Core>, t: &Tm| eg.add_expr(parse_tm::<Core>(t, &nm));
+    if c.insert_first {
+        add(&mut eg, &inserted);
+    }
+    let base = add(&mut eg, &l_id);
+    let n_early = if c.late_gen && c.merge != 0 && !c.gens.is_empty() { c.gens.len() - 1 } else { c.gens.len() };
+    for g in &c.gens[..n_early] {
+        let b = add(&mut eg, &sym_leaf(k, g));
+        eg.union(&base, &b);
+    }
+    if c.merge != 0 && (k == 3 || k == 4) {
+        let names: Vec<Name> = id.iter().map(|x| *x as Name).collect();
+        let h = Tm::leaf(if k == 3 { "h3" } else { "h4" }, &names);
+        let f2 = |a: Name, b: Name| Tm::leaf("f2", &[a, b]);
+        let v = |a: Name| Tm::leaf("v", &[a]);
+        let extra: Vec<Tm> = if k == 3 { vec![Tm::node("p", vec![kk(f2(0, 1)), kk(v(2))]), Tm::node("p", vec![kk(v(0)), kk(f2(1, 2))])] } else { vec![Tm::node("p", vec![kk(f2(0, 1)), kk(f2(2, 3))]), Tm::node("p", vec![kk(f2(0, 2)), kk(f2(1, 3))])] };
+        let hi = add(&mut eg, &h);
+        for e in &extra {
+            let ei = add(&mut eg, e);
+            if c.merge == 1 {
+                eg.union(&hi, &ei);
+            } else {
+                eg.union(&base, &ei);
+            }
+        }
+        eg.union(&base, &hi);
+    }
+    for g in &c.gens[n_early..] {
+        let b = add(&mut eg, &sym_leaf(k, g));
+        eg.union(&base, &b);
+    }
+    if !c.insert_first {
+        add(&mut eg, &inserted);
+    }
+    let rule: Rewrite<Core, ()> = Rewrite::new("planted", &render_pat(&lhs, &nm), &render_pat(&rhs, &nm));
+    apply_rewrites(&mut eg, &[rule]);
+    obs.cmp(2);
+    let describe = || format!("rule {} => {} on {} (a {}-slot leaf symmetric under {:?}, second use permuted by {:?} which is in the generated group)", render_pat(&lhs, &nm), render_pat(&rhs, &nm), inserted.render(&nm), k, c.gens, c.pi);
+    let Some(r) = lookup_tm::<Core, ()>(&eg, &inst_r, &nm) else {
+        return Err(format!("{}: after one apply_rewrites the right-side instance {} is not represented", describe(), inst_r.render(&nm)));
+    };
+    let l = lookup_tm::<Core, ()>(&eg, &inserted, &nm).ok_or("the inserted term is no longer represented")?;
+    if !eg.eq(&l, &r) {
+        return Err(format!("{}: after one apply_rewrites the inserted term and the right-side instance {} are not equal", describe(), inst_r.render(&nm)));
+    }
+    let order = super::c10::closure(k, &c.gens).len();
+    if c.merge != 0 {
+        obs.label("symmetric-class-merged");
+    }
+    if c.gens.len() >= 2 {
+        obs.label("two-or-more-generators");
+    }
+    if c.kind % 4 == 3 {
+        obs.label("permuted-leaf-pattern");
+    } else {
+        obs.label("repeated-variable");
+    }
+    obs.nontrivial = order > 1 && c.pi != id;
+    Ok(())
+}
+
+fn sym_strategy() -> BoxedStrategy<SymPlant> {
+    (proptest::collection::vec(any::<u16>(), 0..60), any::<u8>(), any::<u8>(), any::<bool>(), any::<bool>())
+        .prop_map(|(ch, kind, merge, late_gen, insert_first)| {
+            let mut src = Src::new(&ch);
+            // mostly 3 and 4 slots; 5 slots (up to 120 group elements to enumerate per match attempt) in one case of eight
+            let k = if src.pick(8) == 0 { 5 } else { 3 + src.pick(2) };
+            let n = 1 + src.pick(3);
+            let gens: Vec<Vec<u8>> = (0..n).map(|_| super::c10::structured_perm(k, &mut src)).collect();
+            // pi: a random element of the generated group (uniform over the closure)
+            let mut gens = gens;
+            // the matcher enumerates |G|^2 argument arrangements of a node that uses the class twice: keep 5-slot groups small
+            while k == 5 && super::c10::closure(k, &gens).len() > 12 && gens.len() > 1 {
+                gens.pop();
+            }
+            if k == 5 && super::c10::closure(k, &gens).len() > 12 {
+                gens = vec![vec![1, 0, 3, 2, 4]];
+            }
+            let cl: Vec<Vec<u8>> = super::c10::closure(k, &gens).into_iter().collect();
+            let pi = cl[src.pick(cl.len())].clone();
+            SymPlant { k: k as u8, gens, pi, kind: kind % 4, merge: merge % 3, late_gen, insert_first }
+        })
+        .boxed()
+}
+
 fn strategy(lang: LangId) -> BoxedStrategy<PlantCase> {
     proptest::collection::vec(any::<u16>(), 0..120).prop_filter_map("decodable", move |ch| decode(lang, &ch)).boxed()
 }
@@ -422,5 +567,15 @@ pub fn property(tier: Tier) -> Property {
             exhaustive: false,
         }));
     }
+    stages.push(Box::new(Stage {
+        name: "plant-symmetric-class",
+        source: random(sym_strategy, tier.pick(3000, 60_000)),
+        run: run_sym,
+        panic_is_violation: false,
+        render: |c: &SymPlant| format!("{:?}", c),
+        rule: "a 3-5 slot leaf made symmetric under a group generated by 1-3 permutations (asserted as unions with permuted copies; optionally the class is then merged with another class in either direction, optionally one generator is asserted only after the merge), used twice in the inserted term, the second time permuted by a random element of the generated group; left sides (p ?a ?a), (t3 ?a ?b ?a), (p (w ?a) ?a), or the leaf written out twice with permuted pattern slots; the right-side instance must be represented and equal to the inserted term after one apply_rewrites; non-trivial = the group is non-trivial and the second use is really permuted; distinct by case",
+        case_timeout_s: tier.pick(30, 120),
+        exhaustive: false,
+    }));
     Property { id: "C04", scale: tier.pick(5, 2), stages, assumptions: vec!["scope as stated by the property: bound names bound once and not free; no class with a redundant slot (checked per case, counted)".into()] }
 }
